@@ -283,6 +283,26 @@ def check(case):
                   kind='input_modified')
     rf.GIVEN.clear()
 
+    # whole-number measurements typed as integers (int arrays, nested lists of Python ints) are the same data
+    if not np.any(np.isnan(obs)):
+        with case.clause('integer_observations'):
+            obs_i = np.maximum(1, np.round(np.abs(obs)))
+            f_f = rf.build(parts, obs_i, composed)
+            v_f = f_f.compute_log_likelihood(sim.copy())
+            for label, kwb in (('int arrays', dict(dtype=np.int64)), ('nested lists of Python ints', dict(dtype=np.int64,
+                                                                                                          as_list=True))):
+                f_i = rf.build(parts, obs_i, composed, **kwb)
+                v_i = f_i.compute_log_likelihood(sim.copy())
+                if np.ma.is_masked(v_f) or not np.isfinite(float(v_f)):
+                    continue
+                case.close(float(v_i), float(v_f), rtol=1e-12, what='log-likelihood for whole-number measurements given as '
+                                                                    '%s vs as floats' % label)
+                s_i = f_i.compute_sensitivities(sim.copy())
+                s_f = f_f.compute_sensitivities(sim.copy())
+                case.close(np.asarray(s_i[1], dtype=float), np.asarray(s_f[1], dtype=float), rtol=1e-12,
+                           what='sensitivities for whole-number measurements given as %s vs as floats' % label)
+        rf.GIVEN.clear()
+
     if v0 is None and g0 is None:
         return
 
